@@ -11,8 +11,15 @@ function names non-empty, FROM non-empty), and over all payload sequences.
 `Facts.*` is regenerated from /repo on every run, so a new unchecked assertion, a removed
 `recover` or a new dispatch-table entry re-opens the `decide` obligations below.
 The behaviour of the code as found (before the C16 fixes) is kept as witnesses at the end.
+
+Lexer agreement (Model/SqlLex.lean, Lemmas/SqlLex.lean): `sql.Parse` runs two lexers over the
+same text, the pre-scan `checkLiteralIdentifiers` and sqlparser's tokenizer, and the second never
+returns from a backtick identifier that is open at the end of the input.  The theorems say that
+the pre-scan (as regenerated: `prescan_shape_matches`) accepts exactly the inputs on which the
+tokenizer terminates, for every byte sequence.
 -/
 import ZenoModel.Lemmas.SqlDispatch
+import ZenoModel.Lemmas.SqlLex
 import ZenoModel.Generated.Facts
 
 namespace Zeno.C16
@@ -225,6 +232,43 @@ theorem crosshift_dispatch_agrees (c : Ctx) (v : VKind) (as : String) (l1 l2 : L
       ∃ n, Cross.crosshift maxCrosshiftFields Cross.canonical l1.durNs l2.durNs = .fields n) :=
   Cross.crosshiftTail_agrees c v as l1 l2 h1 h2
 
+/-! ## Lexer agreement: the pre-scan and the tokenizer are two lexers that agree -/
+
+section LexerAgreement
+open Zeno.Sql.Lex
+
+set_option maxRecDepth 100000 in
+/-- The control skeleton of `checkLiteralIdentifiers` in /repo (every branch condition, loop header,
+    return and position update, in source order) is the one the model `preScan` was written
+    against: editing a branch condition of the pre-scan re-opens the model. -/
+theorem prescan_shape_matches : Facts.prescanShape = expectedShape := by decide
+
+/-- Token by token the pre-scan is the tokenizer: for every input, every amount of fuel and both
+    start states, the pre-scan's verdict is the tokenizer's fate. -/
+theorem prescan_agrees_with_tokenizer (n : Nat) (first : Bool) (s : Str) :
+    preAll n first s = tokAll n first s := preAll_eq n first s
+
+/-- Fuel is not an escape hatch: every token consumes at least one byte, so with more fuel than
+    bytes both iterations end with a verdict. -/
+theorem lexer_fuel_suffices (s : Str) (first : Bool) :
+    (∃ b, tokAll (s.length + 1) first s = some b) ∧ (∃ b, preAll (s.length + 1) first s = some b) :=
+  ⟨tokAll_fuel _ first s (Nat.lt_succ_self _), preAll_fuel _ first s (Nat.lt_succ_self _)⟩
+
+/-- THE property: whenever `checkLiteralIdentifiers` returns nil, tokenizing the whole input
+    terminates (the parser may stop earlier, at a syntax error; never later) — `sql.Parse` cannot
+    hang in `scanLiteralIdentifier`, for any byte sequence. -/
+theorem prescan_accepts_implies_tokenizer_terminates (s : Str) (first : Bool)
+    (h : preAll (s.length + 1) first s = some true) : tokAll (s.length + 1) first s = some true := by
+  rw [← prescan_agrees_with_tokenizer]; exact h
+
+/-- … and it is not over-strict: `ErrUnterminatedIdentifier` is returned only for inputs on which
+    the tokenizer would really never return. -/
+theorem prescan_rejects_only_if_tokenizer_loops (s : Str) (first : Bool)
+    (h : preAll (s.length + 1) first s = some false) : tokAll (s.length + 1) first s = some false := by
+  rw [← prescan_agrees_with_tokenizer]; exact h
+
+end LexerAgreement
+
 /-! ## Non-vacuity: concrete inputs, and the findings as witnesses on the code as found -/
 
 private def lit0 : Lit := {}
@@ -291,5 +335,54 @@ example : Cross.crosshift 1000 Cross.unguarded 9223369200000000000 6148911600000
     Cross.crosshift 1000 Cross.canonical 9223369200000000000 6148911600000000000 = .fields 2 := by decide
 /-- without the zero check the cap check divides by zero -/
 example : Cross.crosshift 1000 [.zeroCutoff, .absInterval, .limitIsCutoff, .absLimit, .cap, .loopGuarded] 5 0 = .divZero := by decide
+
+/-! ### Lexer agreement: non-vacuity and the findings as witnesses
+
+The inputs are written as `Char` lists (`decide` on `String.toList` of some literals does not
+terminate in reasonable time); each is tied to its text by an `example`. -/
+
+section LexerWitnesses
+open Zeno.Sql.Lex
+
+/-- closed backtick identifier, a string with an escaped quote, backticks inside comments -/
+private def wOk : Str :=
+  ['a', ' ', '=', ' ', '\'', 'x', '\\', '\'', '\'', ' ', 'A', 'N', 'D', ' ', '`', 'c', '`', ' ', '/', '*', ' ', '`', ' ', '*', '/', ' ', '-', '-', ' ', '`']
+example : wOk = "a = 'x\\'' AND `c` /* ` */ -- `".toList := by decide
+/-- an open backtick identifier -/
+private def wOpen : Str :=
+  ['a', ' ', '=', ' ', '1', ' ', 'A', 'N', 'D', ' ', '`', 'c']
+example : wOpen = "a = 1 AND `c".toList := by decide
+/-- a literal ending in two backslashes, then an open backtick identifier -/
+private def wBackslash : Str :=
+  ['x', ' ', '=', ' ', '\'', 'b', '\\', '\\', '\'', ' ', '`', 'c']
+example : wBackslash = "x = 'b\\\\' `c".toList := by decide
+/-- exponent sign, lone minus, open backtick identifier -/
+private def wExponent : Str :=
+  ['x', ' ', '=', ' ', '1', 'e', '-', '-', '`', 'c']
+example : wExponent = "x = 1e--`c".toList := by decide
+
+/-- accepted, and the tokenizer ends -/
+example : preAll 40 true wOk = some true ∧ tokAll 40 true wOk = some true := by decide
+/-- rejected, and the tokenizer would loop -/
+example : preAll 40 true wOpen = some false ∧ tokAll 40 true wOpen = some false := by decide
+
+/-- the seeded regression (`case ch == '\\' && at(i) == c`: a backslash escapes only the delimiter),
+    on the text  x = 'b\\' `c  (two backslashes): the tokenizer takes them as one escaped backslash,
+    closes the string at the quote and then meets the open backtick — it never returns.  The mutated
+    pre-scan takes the first backslash as a plain byte and the second as escaping the quote, so for
+    it the string never ends: it returns nil.  The pre-scan as it is rejects. -/
+theorem seeded_backslash_witness :
+    preAllWith (preStringWith false) 40 true wBackslash = some true ∧
+    tokAll 40 true wBackslash = some false ∧ preAll 40 true wBackslash = some false := by decide
+
+/-- finding N14 (the pre-scan before C16-fix-18 knew strings, comments and backticks, but not
+    tokens): in  x = 1e--`c  the tokenizer takes the first `-` as the exponent's sign, so the second
+    is a lone minus and the backtick identifier is open: the tokenizer loops.  The old pre-scan
+    saw the line comment  --`c  and accepted. -/
+theorem old_prescan_witness :
+    preOld 40 wExponent = some true ∧ tokAll 40 true wExponent = some false ∧
+    preAll 40 true wExponent = some false := by decide
+
+end LexerWitnesses
 
 end Zeno.C16
